@@ -2,6 +2,7 @@
 from __future__ import annotations
 
 import itertools
+import copy
 import json
 from types import SimpleNamespace
 
@@ -224,6 +225,16 @@ def files(ctx: Ctx):
     for i, d in enumerate(designs):
         if i % 4 == 2:
             one_base_constant_regions(ctx.rng, d)
+        if i % 4 == 3 and d.get('vcfs') and d['vcfs'][0]['records']:
+            # the same record twice in one file (same identifier, or none): two records, two rows
+            import random
+            r3 = random.Random(f'C08-dup-{ctx.seed}-{i}')
+            f0 = d['vcfs'][0]
+            rec = copy.deepcopy(r3.choice(f0['records']))
+            if r3.random() < 0.4:
+                rec['ref'] = rec['ref'].lower()
+            f0['records'].append(rec)
+            f0['records'].sort(key=lambda r: (r.get('contig', d['contig']) != d['contig'], r['pos']))
         if i % 4 == 1 and d.get('vcfs'):
             # the deletion of a complete targeton (anchored on the base before it): its oligonucleotide is empty, the record is still reported
             import random
